@@ -120,7 +120,7 @@ m = {
  ],
  "checks": checks,
  "not_applicable": na,
- "notes": "Sensitivity: 201 seeded changes in six rounds (36 + 18 ordinary ones written from the property text alone - the latter 18/18 caught by the check of their own property without strengthening -, 147 adversarial; see DESIGN.md 9 for what is and is not caught) kept under /verif/seeded with meta.json; 16 behaviour-preserving refactors x 18 checks raised no alarm. All checks: ./check <id> <quick|thorough>; exit 0 held, 1 + VIOLATION line, 2 infrastructure trouble (build failure, watchdog). Known findings: /verif/known_findings.json. Regression inputs replayed first in every run: /verif/replays/regress/.",
+ "notes": "Sensitivity: 209 seeded changes in six rounds (36 + 18 ordinary ones written from the property text alone - the latter 18/18 caught by the check of their own property without strengthening -, 155 adversarial; see DESIGN.md 9 for what is and is not caught) kept under /verif/seeded with meta.json; 16 behaviour-preserving refactors x 18 checks raised no alarm. All checks: ./check <id> <quick|thorough>; exit 0 held, 1 + VIOLATION line, 2 infrastructure trouble (build failure, watchdog). Known findings: /verif/known_findings.json. Regression inputs replayed first in every run: /verif/replays/regress/.",
 }
 json.dump(m, open(os.path.join(V, 'MANIFEST.json'), 'w'), indent=1)
 print("checks:", len(checks), "not_applicable:", len(na))
